@@ -329,23 +329,30 @@ class SFTPServer(BaseSFTP, SubsystemHandler):
 
         sum_out = bytes()
         offset = start
-        while offset < start + length:
-            blocklen = min(block_size, start + length - offset)
-            # don't try to read more than about 64KB at a time
-            chunklen = min(blocklen, 65536)
+        end = start + length
+        while offset < end:
+            blocklen = min(block_size, end - offset)
             count = 0
             hash_obj = alg()
             while count < blocklen:
-                data = f.read(offset, chunklen)
+                # don't try to read more than about 64KB at a time
+                chunklen = min(blocklen - count, 65536)
+                data = f.read(offset + count, chunklen)
                 if not isinstance(data, bytes):
                     self._send_status(
                         request_number, data, "Unable to hash file"
                     )
                     return
+                if len(data) == 0:
+                    # end of file: the range ends here
+                    break
                 hash_obj.update(data)
                 count += len(data)
-                offset += count
-            sum_out += hash_obj.digest()
+            if count > 0:
+                sum_out += hash_obj.digest()
+            if count < blocklen:
+                break
+            offset += blocklen
 
         msg = Message()
         msg.add_int(request_number)
